@@ -138,6 +138,11 @@ type Path struct {
 	tag          string
 	verified     []*verifiedSig
 	fnStack      []*ssa.Function
+	crashArmed   int
+	crashCount   int
+	crashNames   []string
+	crashedAt    string
+	fileOpens    []fileOpen
 	decodes      []*decodeAttempt
 }
 
